@@ -12,7 +12,7 @@ for d in sorted(glob.glob(os.path.join(HERE, 'seeded', '*'))):
 for f in sorted(glob.glob(os.path.join(HERE, 'mutants', '*.diff'))):
     name = os.path.basename(f)[:-5]
     items.append((name, name.split('-')[0], f, 'harmless' if '.harmless' in name else 'break'))
-res_path = os.path.join(HERE, 'out', 'seeded_results.json')
+res_path = os.path.join(HERE, 'seeded', 'RESULTS.json')
 results = json.load(open(res_path)) if os.path.exists(res_path) else {}
 from concurrent.futures import ThreadPoolExecutor
 def run(item):
